@@ -243,7 +243,27 @@ PAIRS['CMP'] = ("""<schema>
  <section type="td" name="*" attribute="sd"/>
 </schema>""", {})
 
+# a packaged component whose prefix is NOT its own package name importing a neighbour by a '.'-relative
+# package name: the name is completed with the nearest enclosing prefix (vfpk_o.sub), not with the
+# component's own package (vfpk_r.sub is a decoy with another datatype and default)
+PAIRS['RELPKG'] = ("""<schema>
+ <import package="vfpk_r"/>
+ <multisection type="ar" name="*" attribute="xs"/>
+</schema>""", """<schema>
+ <abstracttype name="ar"/>
+ <sectiontype name="ts" implements="ar"><key name="ks" datatype="integer" default="7"/></sectiontype>
+ <sectiontype name="tr" implements="ar"><key name="kr"/></sectiontype>
+ <multisection type="ar" name="*" attribute="xs"/>
+</schema>""", {})
+
 PKGS = {
+    'vfpk_r': """<component prefix="vfpk_o"><import package=".sub"/>
+ <sectiontype name="tr" implements="ar"><key name="kr"/></sectiontype></component>""",
+    'vfpk_o': None,
+    'vfpk_o/sub': """<component><abstracttype name="ar"/>
+ <sectiontype name="ts" implements="ar"><key name="ks" datatype="integer" default="7"/></sectiontype></component>""",
+    'vfpk_r/sub': """<component><abstracttype name="ar"/>
+ <sectiontype name="ts" implements="ar"><key name="ks" default="decoy"/></sectiontype></component>""",
     'vfpk_d': """<component><abstracttype name="ad"/>
  <sectiontype name="td" implements="ad"><key name="kd"/></sectiontype>
  <import package="vfpk_e"/></component>""",
@@ -270,9 +290,10 @@ def ensure_packages():
         _PK['d'] = d
         atexit.register(shutil.rmtree, d, True)
         for name, xml in PKGS.items():
-            os.makedirs(os.path.join(d, name))
+            os.makedirs(os.path.join(d, name), exist_ok=True)
             open(os.path.join(d, name, '__init__.py'), 'w').write('')
-            open(os.path.join(d, name, 'component.xml'), 'w').write(xml)
+            if xml is not None:
+                open(os.path.join(d, name, 'component.xml'), 'w').write(xml)
         sys.path.insert(0, d)
     return d
 
